@@ -254,14 +254,14 @@ void PCA(matrix *mx, int scaling, size_t npc, PCAMODEL* model, ssignal *s)
       DelDVector(&colvar);
 
       /* Without centering (scaling -1) the column of largest variance can be
-       * a null column while E still holds constant non null columns: start
-       * then from the column of largest norm.
+       * a null (or noise level) column while E still holds constant non null
+       * columns: start then from the column of largest norm.
        */
       mod_t = 0.f;
       for(i = 0; i < E->row; i++)
         mod_t += square(E->data[i][j]);
 
-      if(mod_t == 0.f){
+      if(mod_t <= ss*DBL_EPSILON*DBL_EPSILON){
         size_t k;
         for(k = 0; k < E->col; k++){
           double col_ss = 0.f;
